@@ -312,6 +312,60 @@ pub fn requests(prop: &str, fl: &str, g: &GraphSpec, thorough: bool, rng: Option
         }
         _ => {}
     }
+    // closures that themselves start traversals or ask questions while the outer one runs (bfs, dfs, pfs, transposed
+    // dfs, preorder, is_connected): nothing a nested call does may leak into the running one
+    {
+        let ro_script = |rng: &mut Rng| -> String {
+            let mut ents = vec![];
+            for _ in 0..1 + rng.below(3) {
+                let ops: Vec<String> = (0..1 + rng.below(2))
+                    .map(|_| {
+                        let (u, v) = (rng.below(n.max(1)), rng.below(n.max(1)));
+                        match rng.below(6) {
+                            0 => format!("s.{u}.{v}"),
+                            1 => format!("sd.{u}.{v}"),
+                            2 => format!("sp.{u}.{v}"),
+                            3 => format!("st.{u}.{v}"),
+                            4 => format!("so.{u}"),
+                            _ => format!("q.{u}.{v}"),
+                        }
+                    })
+                    .collect();
+                if rng.chance(40) {
+                    ents.push(format!("*{}={}", 1 + rng.below(3), ops.join("/")));
+                } else {
+                    ents.push(format!("{}={}", rng.below(6), ops.join("/")));
+                }
+            }
+            ents.join(";")
+        };
+        let ds = if prop == "C10" { if is_directed(fl) { vec!["fwd", "default"] } else { vec!["fwd"] } } else { dirs(fl, true) };
+        for d in ds {
+            for &(r, t) in pairs.iter().take(if small { 6 } else { 4 }) {
+                if n == 0 {
+                    continue;
+                }
+                let m = if rng.chance(50) { format!("each@{}", ro_script(rng)) } else { format!("filter:-@{}", ro_script(rng)) };
+                if prop != "C10" && d != "default" {
+                    for k in &search_kinds {
+                        match prop {
+                            "C09" => l.push(format!("search {k} {d} {r} - {m} cycle")),
+                            "C07" => l.push(format!("search {k} {d} {r} - {m} node")),
+                            _ => {
+                                l.push(format!("search {k} {d} {r} {t} {m} path"));
+                                l.push(format!("search {k} {d} {r} {t} {m} node"));
+                            }
+                        }
+                    }
+                }
+                if prop == "C10" || prop == "C07" || prop == "C08" {
+                    for k in ["pre", "post"] {
+                        l.push(format!("order {k} {d} {r} {m} nodes"));
+                    }
+                }
+            }
+        }
+    }
     // builder reuse: several searches on ONE builder object (`mode1+mode2`, `path:K` retargets first). Nothing may
     // survive from one call to the next: every stage must be the search the property describes.
     let mut h = 0usize;
